@@ -363,7 +363,10 @@ func (h *MultiHandler) abort(err error, culprits ...party.ID) {
 
 // Stop cancels the current execution of the protocol, and alerts the other users.
 func (h *MultiHandler) Stop() {
-	if h.err != nil || h.result != nil {
+	h.mtx.Lock()
+	defer h.mtx.Unlock()
+	// only a running session can be stopped: once it has ended the channel is already closed
+	if h.err == nil && h.result == nil {
 		h.abort(errors.New("aborted by user"), h.currentRound.SelfID())
 	}
 }
